@@ -712,7 +712,8 @@ def inline_private_calls(idx: Index, f: FuncInfo, depth: int = 2, keep=()) -> as
     statement; the helper is a private method of the same class or private function of the same module, takes plain
     positional/keyword parameters, and contains no `return <value>` / `yield`) is replaced by the helper's body with the
     parameters substituted by the argument expressions (helpers named in `keep` stay calls); likewise `x = helper(args)` /
-    `return helper(args)` when the helper's only return is its last statement.  Path rules build their CFG on this copy, so that moving the
+    `return helper(args)` when the helper's only return is its last statement; and a call of a helper whose whole body is
+    `return <expr>` is replaced by that expression wherever it stands (also in a test).  Path rules build their CFG on this copy, so that moving the
     tail of a function into a helper does not change what they see.  Anything else is left as it is."""
     import copy
 
@@ -931,8 +932,53 @@ def inline_private_calls(idx: Index, f: FuncInfo, depth: int = 2, keep=()) -> as
             out.append(st)
         return out
 
+    class ExprHelpers(ast.NodeTransformer):
+        """`self._pred(a)` where the helper's whole body is `return <expr>`: replaced by <expr> with the parameters
+        substituted -- anywhere, also in the test of an if/while (a pure one-line predicate or getter)"""
+        def __init__(self, level):
+            self.level = level
+
+        def visit_Call(self, n):
+            self.generic_visit(n)
+            if self.level >= depth:
+                return n
+            h, is_method = helper_of(f.cls, f.unit.modname, n)
+            if h is None or h.qualname == f.qualname or not h.name.startswith("_") or h.name.startswith("__") or h.name in keep:
+                return n
+            body = [b for b in h.node.body if not (isinstance(b, ast.Expr) and isinstance(b.value, ast.Constant))]
+            a = h.node.args
+            if len(body) != 1 or not isinstance(body[0], ast.Return) or body[0].value is None or a.vararg or a.kwarg or a.posonlyargs or a.kwonlyargs:
+                return n
+            if h.decorator_names() and not all(d.split(".")[-1] == "staticmethod" for d in h.decorator_names()):
+                return n  # property / cached / wrapped: not a plain call
+            params = [p.arg for p in a.args][1 if is_method else 0:]
+            env = dict(zip(params, n.args))
+            if len(n.args) > len(params):
+                return n
+            for k in n.keywords:
+                if k.arg not in params:
+                    return n
+                env[k.arg] = k.value
+            defaults = dict(zip(params[len(params) - len(a.defaults):], a.defaults))
+            for pnm in params:
+                if pnm not in env:
+                    if pnm not in defaults:
+                        return n
+                    env[pnm] = defaults[pnm]
+
+            class SubE(ast.NodeTransformer):
+                def visit_Name(self, m):
+                    if m.id in env and isinstance(m.ctx, ast.Load):
+                        return copy.deepcopy(env[m.id])
+                    return m
+            new = SubE().visit(copy.deepcopy(body[0].value))
+            new = ExprHelpers(self.level + 1).visit(new)
+            return ast.copy_location(new, n)
+
     node = copy.deepcopy(f.node)
+    node = ExprHelpers(0).visit(node)
     node.body = expand(node.body, 0)
+    node = ExprHelpers(0).visit(node)  # one-line predicates inside the helper bodies that were just spliced in
     ast.fix_missing_locations(node)
     return node
 
